@@ -56,9 +56,9 @@ func (nopHandler) ProcessEventBatch(context.Context, *handlerpb.ProcessEventBatc
 }
 
 func genSlot(tier string, r *hx.Rand) []*hx.Case {
-	n := 12
+	n := 30
 	if tier == "thorough" {
-		n = 60
+		n = 200
 	}
 	var cs []*hx.Case
 	for i := 0; i < n; i++ {
@@ -143,6 +143,7 @@ func executeSlot(c *hx.Case) (*hx.Result, error) {
 			}
 			return 0
 		case <-time.After(waitFor):
+			timedOut()
 			return 3
 		}
 	}
